@@ -72,22 +72,28 @@ def Ans (v : DView) : Prop :=
 
 structure Ginv (c : Cfg) (s : St) : Prop where
   live : s.halted = false → PhaseData c s.view s.phase ∧ s.inner ≤ s.phase
-  done : s.halted = true → SpOK c s.trace ∧ (s.exhausted = true ∨ DoneOK c s.view)
+  done : s.halted = true → SpOK c s.trace ∧ (s.exhausted = true ∨ s.retried = true ∨ DoneOK c s.view)
   ans : Ans s.view
 
 /-! ### assembling the invariant for the two ways a `case` ends -/
 
 theorem Ginv_ret (c : Cfg) (g : St) (p : Nat) (hnh : g.halted = false) (hans : Ans g.view) (hsp : SpOK c g.trace)
-    (hend : p = End → g.exhausted = true ∨ DoneOK c g.view) (hp : p ≠ End → PhaseData c g.view p) :
+    (hend : p = End → g.exhausted = true ∨ DoneOK c g.view) (hp : p ≠ End → p ≠ Retry → PhaseData c g.view p) :
     Ginv c (ret g p) := by
   unfold ret
   split
   · rename_i h
-    exact ⟨by simp, fun _ => ⟨hsp, hend h⟩, hans⟩
+    refine ⟨by simp, fun _ => ⟨hsp, ?_⟩, hans⟩
+    rcases hend h with h1 | h1
+    · exact Or.inl h1
+    · exact Or.inr (Or.inr h1)
   · rename_i h
     split
-    · exact ⟨by simp, fun _ => ⟨hsp, Or.inl rfl⟩, hans⟩
-    · exact ⟨fun _ => ⟨hp h, Nat.zero_le _⟩, by simp [hnh], hans⟩
+    · exact ⟨by simp, fun _ => ⟨hsp, Or.inr (Or.inl rfl)⟩, hans⟩
+    · rename_i hr
+      split
+      · exact ⟨by simp, fun _ => ⟨hsp, Or.inl rfl⟩, hans⟩
+      · exact ⟨fun _ => ⟨hp h hr, Nat.zero_le _⟩, by simp [hnh], hans⟩
 
 theorem Ginv_next (c : Cfg) (g : St) (hnh : g.halted = false) (hans : Ans g.view)
     (hp : PhaseData c g.view (g.phase + 1)) (hin : g.inner ≤ g.phase + 1) :
@@ -115,7 +121,7 @@ theorem G_plain (c : Cfg) (g : St) (hnh : g.halted = false) (hc : g.cleaned = fa
   split
   · rename_i ha
     obtain ⟨h1, h2⟩ := hagain ha
-    exact Ginv_ret c _ _ hnh hans hsp (fun h => absurd h h1) (fun _ => h2)
+    exact Ginv_ret c _ _ hnh hans hsp (fun h => absurd h h1) (fun _ _ => h2)
   · rename_i ha
     have ha : g.again = InitPhase := by simpa using ha
     rw [if_neg (by rw [hpd]; simp)]
@@ -131,16 +137,16 @@ theorem G_direct (c : Cfg) (g : St) (hnh : g.halted = false) (hc : g.cleaned = f
   have hans' : Ans (consumeDirect g).view := hans
   split
   · rename_i ho
-    exact Ginv_ret c _ _ hnh hans' (Or.inl hback) (fun h => by cases h) (fun _ => PhaseData_9 c _ hcom ho hback)
+    exact Ginv_ret c _ _ hnh hans' (Or.inl hback) (fun h => by cases h) (fun _ _ => PhaseData_9 c _ hcom ho hback)
   · rename_i ho
     have ho : c.env.oneway = false := by simpa using ho
     exact Ginv_ret c _ _ hnh hans' (Or.inl hback) (fun h => by cases h)
-      (fun _ => PhaseData_12 c _ hcom hresp hr hback hsf ho)
+      (fun _ _ => PhaseData_12 c _ hcom hresp hr hback hsf ho)
 
 theorem G_cleaned (c : Cfg) (g : St) (hnh : g.halted = false) (hc : g.cleaned = true) (hans : Ans g.view)
     (hsp : SpOK c g.trace) (hdone : DoneOK c g.view) : Ginv c (afterPE c g) := by
   rw [afterPE_cleaned c g hc]
-  exact Ginv_ret c g End hnh hans hsp (fun _ => Or.inr hdone) (fun h => absurd rfl h)
+  exact Ginv_ret c g End hnh hans hsp (fun _ => Or.inr hdone) (fun h _ => absurd rfl h)
 
 /-- `processError` after a pool refusal / upstream reset (nothing was answered by a filter) -/
 theorem G_reset (c : Cfg) (g : St) (hnh : g.halted = false) (hc : g.cleaned = false) (hr : g.upstreamReset = true)
@@ -151,12 +157,18 @@ theorem G_reset (c : Cfg) (g : St) (hnh : g.halted = false) (hc : g.cleaned = fa
   split
   · rename_i ho
     exact Ginv_ret c _ _ hnh (fun h => absurd h hna) (Or.inl hback) (fun h => by cases h)
-      (fun _ => PhaseData_9 c _ ⟨ha, hc, hd, hpd⟩ ho hback)
+      (fun _ _ => PhaseData_9 c _ ⟨ha, hc, hd, hpd⟩ ho hback)
   · rename_i ho
     have ho : c.env.oneway = false := by simpa using ho
-    refine Ginv_ret c _ _ (by simp [consumeDirect, onUpstreamReset, liftF, hnh]) (fun h => absurd h hna)
-      (Or.inl hback) (fun h => by cases h) (fun _ => ?_)
-    exact PhaseData_12 c _ ⟨rfl, hc, rfl, hpd⟩ rfl rfl hback hsf ho
+    split
+    · -- the reset is retried: `processError` returns the phase Retry, the model stops with `retried`
+      rw [if_neg (by simp [hd])]
+      exact Ginv_ret c _ Retry (by simp [setRetry, liftF, hnh]) (fun h => absurd h hna) (Or.inl hback)
+        (fun h => by cases h) (fun _ h => absurd rfl h)
+    · first | rw [if_pos hph] | skip
+      refine Ginv_ret c _ _ (by simp [consumeDirect, onUpstreamReset, liftF, hnh]) (fun h => absurd h hna)
+        (Or.inl hback) (fun h => by cases h) (fun _ _ => ?_)
+      exact PhaseData_12 c _ ⟨rfl, hc, rfl, hpd⟩ rfl rfl hback hsf ho
 
 /-! ### trace projections under append -/
 
@@ -650,6 +662,13 @@ theorem phaseCase_Ginv_back (c : Cfg) (s : St) (hnh : s.halted = false) (hd : Ph
               rw [show s.toFState.resp = none from hr] at this; cases this
     | some r =>
       simp only []
+      by_cases hq : (!(s.procDone || s.upstreamReset) && headersRetry c s) = true
+      · -- the response is retried (a retry state exists and the regenerated decision fires): the model stops
+        rw [if_pos hq, afterPEd_true c (setRetry s) (by simp [setRetry, liftF])]
+        rw [if_neg (by simp [setRetry, liftF, hs_clean]), if_neg (by simp [setRetry, liftF, hs_dir])]
+        exact Ginv_ret c _ Retry (by simp [setRetry, liftF, hnh]) hans (Or.inr ⟨[], hback, rfl⟩)
+          (fun h => by cases h) (fun _ h => absurd rfl h)
+      rw [if_neg hq]
       unfold respHeaders
       rw [if_neg (by rw [hs_pd, hrst]; simp)]
       split
@@ -767,11 +786,12 @@ theorem Ginv_SpOK (c : Cfg) (s : St) (h : Ginv c s) : SpOK c s.trace := by
 
 /-- what the invariant says about a finished stream that a filter answered -/
 theorem single_reply_of (c : Cfg) (s : St) (hg : Ginv c s) (hh : s.halted = true) (ha : answeredIn s.trace)
-    (hnt : ¬ terminatedIn s.trace) (hno : c.env.oneway = false) (hex : s.exhausted = false) :
+    (hnt : ¬ terminatedIn s.trace) (hno : c.env.oneway = false) (hex : s.exhausted = false) (hrt : s.retried = false) :
     ∃ r code, replyOf (recvVerdicts s.trace) (none, none) = (some r, code) ∧
       backPart s.trace = .spass 0 (sendRun c.send 0) :: replyEvs r code := by
-  rcases (hg.done hh).2 with hd | ⟨_, hd⟩
+  rcases (hg.done hh).2 with hd | hd | ⟨_, hd⟩
   · rw [hex] at hd; cases hd
+  · rw [hrt] at hd; cases hd
   · rcases hd with hd | hd | ⟨r, hr, hb⟩
     · exact absurd hd hnt
     · rw [hno] at hd; cases hd
@@ -823,8 +843,10 @@ theorem ret_ctl (s g : St) (p : Nat) (ho : g.outer = s.outer) : Ctl s (ret g p) 
   · exact Or.inl rfl
   · split
     · exact Or.inl rfl
-    · rename_i h
-      exact Or.inr (Or.inr ⟨by simp [ho], rfl, by rw [← ho]; omega⟩)
+    · split
+      · exact Or.inl rfl
+      · rename_i h
+        exact Or.inr (Or.inr ⟨by simp [ho], rfl, by rw [← ho]; omega⟩)
 
 theorem afterPE_ctl (c : Cfg) (s g : St) (ho : g.outer = s.outer) (hi : g.inner = s.inner) : Ctl s (afterPE c g) := by
   by_cases hc : g.cleaned = true
@@ -834,7 +856,11 @@ theorem afterPE_ctl (c : Cfg) (s g : St) (ho : g.outer = s.outer) (hi : g.inner 
     · rw [afterPE_reset c g hc hr]
       split
       · exact ret_ctl s g _ ho
-      · split <;> exact ret_ctl s _ _ ho
+      · split
+        · split
+          · split <;> exact ret_ctl s _ _ ho
+          · exact ret_ctl s _ _ ho
+        · split <;> exact ret_ctl s _ _ ho
     · have hr : g.upstreamReset = false := by simpa using hr
       by_cases hd : g.direct = true
       · rw [afterPE_direct c g hc hr hd]
@@ -886,9 +912,20 @@ theorem phaseCase_ctl (c : Cfg) (s : St) : Ctl s (phaseCase c s) := by
       · unfold deliver; split <;> (try split) <;> rfl
   · rw [pc12 c s h]; exact afterPE_ctl c s _ (by simp [sendPass, emit, liftF]) (by simp [sendPass, emit, liftF])
   · rw [pc13 c s h]; split
-    · apply afterPE_ctl
-      · unfold respHeaders; split <;> (try split) <;> rfl
-      · unfold respHeaders; split <;> (try split) <;> rfl
+    · split
+      · rw [afterPEd_true c (setRetry s) (by simp [setRetry, liftF])]
+        split
+        · exact ret_ctl s _ _ rfl
+        · split
+          · split
+            · exact ret_ctl s _ _ rfl
+            · split
+              · exact ret_ctl s _ _ rfl
+              · exact Or.inr (Or.inl ⟨rfl, rfl⟩)
+          · exact ret_ctl s _ _ rfl
+      · apply afterPE_ctl
+        · unfold respHeaders; split <;> (try split) <;> rfl
+        · unfold respHeaders; split <;> (try split) <;> rfl
     · exact stay _
   · rw [pc14 c s h]; split
     · split
